@@ -249,35 +249,37 @@ func (c *Ctx) registryCoverage(analysed map[string]bool) {
 		if fi.Fn.Name() != "AllStrategies" || fi.Decl.Recv != nil {
 			continue
 		}
-		ast.Inspect(fi.Decl.Body, func(nd ast.Node) bool {
-			call, ok := nd.(*ast.CallExpr)
-			if !ok {
+		for _, body := range c.familyBodies(fi) {
+			ast.Inspect(body, func(nd ast.Node) bool {
+				call, ok := nd.(*ast.CallExpr)
+				if !ok {
+					return true
+				}
+				t := fi.Pkg.TypesInfo.TypeOf(call)
+				if t == nil {
+					return true
+				}
+				p, ok := t.(*types.Pointer)
+				if !ok {
+					return true
+				}
+				nm, ok := p.Elem().(*types.Named)
+				if !ok || nm.Obj().Pkg() == nil || !strings.HasPrefix(nm.Obj().Pkg().Path(), load.ModulePath) {
+					return true
+				}
+				if iface == nil || !types.Implements(p, iface) {
+					return true
+				}
+				n++
+				name := nm.Obj().Pkg().Name() + "." + nm.Obj().Name()
+				run.Oblige(analysed[name])
+				if !analysed[name] {
+					run.Violate(report.Finding{Rule: "actions/registry", Site: load.FuncName(fi.Fn), Detail: name, Pos: c.P.Pos(call.Pos()),
+						Message: "registry entry of type " + name + " has no analysed Compute method"})
+				}
 				return true
-			}
-			t := fi.Pkg.TypesInfo.TypeOf(call)
-			if t == nil {
-				return true
-			}
-			p, ok := t.(*types.Pointer)
-			if !ok {
-				return true
-			}
-			nm, ok := p.Elem().(*types.Named)
-			if !ok || nm.Obj().Pkg() == nil || !strings.HasPrefix(nm.Obj().Pkg().Path(), load.ModulePath) {
-				return true
-			}
-			if iface == nil || !types.Implements(p, iface) {
-				return true
-			}
-			n++
-			name := nm.Obj().Pkg().Name() + "." + nm.Obj().Name()
-			run.Oblige(analysed[name])
-			if !analysed[name] {
-				run.Violate(report.Finding{Rule: "actions/registry", Site: load.FuncName(fi.Fn), Detail: name, Pos: c.P.Pos(call.Pos()),
-					Message: "registry entry of type " + name + " has no analysed Compute method"})
-			}
-			return true
-		})
+			})
+		}
 	}
 	run.Count("registry_entries", n)
 	run.Floor("registry_entries", 30)
@@ -340,12 +342,13 @@ func (c *Ctx) actionConstants() {
 func CheckC14(c *Ctx) {
 	run := c.Run
 	run.Technique = "stream-shape calculus on every strategy Report method: the template's range-over-dates with one Value() per column is a zip; every column's length and anchor are proved equal to the date stream's for symbolic configurations"
-	run.Explanation = "helper/report.tmpl ranges over .Date and calls .Value once on every column per row, so a report is a zip of the date stream with every column. For each of the strategy Report methods the date stream and every column stream (found through the constructed helper.Report object, not by name) are derived symbolically; for all admissible configurations and every n beyond the warm-up each column is proved to have exactly the date stream's length (no column runs dry, none keeps unconsumed values) and the same anchor with respect to the snapshots (row d carries the values computed for d). The indicator warm-up contracts these verdicts rest on (every indicator whose Compute was summarised by IdlePeriod() while a Report was analysed, and transitively the indicators it is built from) are re-proved by this check: max(0, n - IdlePeriod()) values anchored at IdlePeriod(). Values of the fixed columns, decided on their value terms: the date stream is the snapshots' Date field unchanged (no conversion or arithmetic), the column named Close is their Close field, the annotation column is ActionsToAnnotations of exactly the action term the strategy's own Compute yields, and the Outcome column is 100 * Outcome(Close, those actions)."
+	run.Explanation = "helper/report.tmpl ranges over .Date and calls .Value once on every column per row, so a report is a zip of the date stream with every column. For each of the strategy Report methods the date stream and every column stream (found through the constructed helper.Report object, not by name) are derived symbolically; every ReportColumn implementation's Value() takes exactly one value from its stream, unconditionally, on every call (one blocking receive outside any branch, loop or select, no other channel operation: a timeout or a skipped receive turns latency or content into a shift of every later row); for all admissible configurations and every n beyond the warm-up each column is proved to have exactly the date stream's length (no column runs dry, none keeps unconsumed values) and the same anchor with respect to the snapshots (row d carries the values computed for d). The indicator warm-up contracts these verdicts rest on (every indicator whose Compute was summarised by IdlePeriod() while a Report was analysed, and transitively the indicators it is built from) are re-proved by this check: max(0, n - IdlePeriod()) values anchored at IdlePeriod(). Values of the fixed columns, decided on their value terms: the date stream is the snapshots' Date field unchanged (no conversion or arithmetic), the column named Close is their Close field, the annotation column is ActionsToAnnotations of exactly the action term the strategy's own Compute yields, and the Outcome column is 100 * Outcome(Close, those actions)."
 	run.Trusted = []string{"go/types", "template semantics: one Value() per column per date row (helper/report.tmpl read once; the rule re-checks that the template still ranges over .Date and calls .Value)", "declared IdlePeriod contracts (C02)", "Strategy contract for wrapped strategies (C05)", "Γ"}
 	reps := StrategyMethods(c.P, "Report")
 	run.Count("report_methods", len(reps))
 	run.Floor("report_methods", 40)
 	c.templateShape()
+	c.columnReceives()
 	used := map[string]bool{}
 	for _, fi := range reps {
 		for _, r := range c.Results(fi, Opts{Mode: shape.ModeContracts, SkipGamma: reportNeedsNoGamma}) {
@@ -894,4 +897,95 @@ func (c *Ctx) registryAdmissible() {
 	run.Count("registry_objects", n)
 	run.Floor("registry_objects", 30)
 	run.Count("registry_relations", nRel)
+}
+
+// columnReceives: the zip of the template holds only if one call of Value() consumes exactly one
+// element of the column's stream whatever the element is and whenever it arrives. For every
+// implementation of helper.ReportColumn, Value (with the unexported helpers it calls) contains
+// exactly one channel operation: a receive from a channel field of the receiver, in a statement
+// of the method's own body (not under a condition, in a loop, a select or a function literal).
+func (c *Ctx) columnReceives() {
+	run := c.Run
+	impls := c.implementers("helper", "ReportColumn")
+	n := 0
+	for _, nm := range impls {
+		fi := c.methodDecl(nm, "Value")
+		if fi == nil || fi.Decl.Body == nil {
+			continue
+		}
+		n++
+		info := fi.Pkg.TypesInfo
+		site := "helper.(" + nm.Obj().Name() + ").Value"
+		why := ""
+		recvs := 0
+		for bi, body := range c.familyBodies(fi) {
+			top := map[ast.Stmt]bool{}
+			if bi == 0 {
+				for _, st := range body.List {
+					top[st] = true
+				}
+			}
+			var stack []ast.Node
+			ast.Inspect(body, func(nd ast.Node) bool {
+				if nd == nil {
+					stack = stack[:len(stack)-1]
+					return true
+				}
+				stack = append(stack, nd)
+				switch x := nd.(type) {
+				case *ast.SelectStmt:
+					why = "Value() selects between channel operations: whether a row gets its value depends on timing"
+				case *ast.SendStmt:
+					why = "Value() sends on a channel"
+				case *ast.RangeStmt:
+					if _, isChan := info.TypeOf(x.X).Underlying().(*types.Chan); isChan {
+						why = "Value() ranges over a channel: one call consumes more than one value"
+					}
+				case *ast.UnaryExpr:
+					if x.Op != token.ARROW {
+						return true
+					}
+					recvs++
+					// from a channel field of the receiver
+					sel, isSel := ast.Unparen(x.X).(*ast.SelectorExpr)
+					if !isSel {
+						why = "Value() receives from " + exprString(x.X) + ", not from the column's own stream"
+						return true
+					}
+					if _, isField := info.ObjectOf(sel.Sel).(*types.Var); !isField {
+						why = "Value() receives from " + exprString(x.X) + ", not from the column's own stream"
+					}
+					// unconditional: the innermost enclosing statement list is the method body
+					uncond := false
+					for i := len(stack) - 1; i >= 0; i-- {
+						st, isStmt := stack[i].(ast.Stmt)
+						if !isStmt {
+							if _, isLit := stack[i].(*ast.FuncLit); isLit {
+								break
+							}
+							continue
+						}
+						switch st.(type) {
+						case *ast.AssignStmt, *ast.ReturnStmt, *ast.ExprStmt, *ast.DeclStmt:
+							uncond = top[st]
+						}
+						break
+					}
+					if !uncond {
+						why = "the receive in Value() is conditional (inside a branch, loop, helper or function literal): a row can be rendered without consuming its value"
+					}
+				}
+				return true
+			})
+		}
+		if why == "" && recvs != 1 {
+			why = fmt.Sprintf("Value() performs %d receives per call, not exactly one", recvs)
+		}
+		run.Oblige(why == "")
+		if why != "" {
+			c.violate("report/column-receive", site, short(why, 60), fi.Decl.Pos(), why+": every later value of the column lands in the wrong row")
+		}
+	}
+	run.Count("report_column_types", n)
+	run.Floor("report_column_types", 2)
 }
